@@ -250,6 +250,11 @@ def rule_pa_case(cx, rep, port):
     # statement keywords themselves: locate_statements builds (?i)... / 'ig'
     p = cx.port(port)
     ls = p.func(cx.engine_mod(port), 'locate_statements')
+    lm = _locate_model(cx, port)
+    if lm is not None:
+        rep.decide(lm['pattern'] is None, 'locate_statements pattern', ls, 'statement keywords: case-insensitive, preceded by start/space, followed by a space (locate_statements evaluated on eleven query texts)', lm['pattern'] or '')
+        rep.decide(lm['multi'] is None, 'multi-word keywords', ls, 'spaces inside multi-word keywords match any number of spaces', lm['multi'] or '')
+        return
     # ... in locate_statements itself or in a module function it calls
     scope = [ls]
     for c_ in walk_no_nested(ls):
@@ -315,6 +320,14 @@ def rule_pa_groups(cx, rep, port):
     dup = {x for x in flat if flat.count(x) > 1}
     rep.decide(not missing and not dup, 'keyword coverage', (p.files[mod], 0), 'every statement keyword constant is in exactly one group: {}'.format(sorted(flat)), 'keyword constants {} are in no group / {} in several'.format(sorted(missing), sorted(dup)))
     ls = p.func(mod, 'locate_statements')
+    lm = _locate_model(cx, port)
+    if lm is not None:
+        rep.decide(lm['first'] is None, 'first match wins', ls, 'within a group the first (longest) matching statement wins (locate_statements evaluated on eleven query texts)', lm['first'] or '')
+        rep.decide(lm['order'] is None, 'order-free location', ls, 'located statements are ordered by position, so clause order is free', lm['order'] or '')
+        rep.decide(lm['dup'] is None, 'duplicate statement', ls, 'a statement occurring twice is a parsing error', lm['dup'] or '')
+        _pa_groups_separate_actions(cx, rep, port, p, mod)
+        return
+    rep._fallback = 'locate_statements is outside the abstract interpreter'
     # helpers of locate_statements (module functions it calls, one level) belong to it
     helpers = []
     for c_ in walk_no_nested(ls):
@@ -362,6 +375,11 @@ def rule_pa_groups(cx, rep, port):
         rep.violated('duplicate statement', ls, 'a repeated statement is no longer rejected')
     else:
         rep.undecided('duplicate statement', dupchk[0], 'the condition under which a repeated statement is rejected (`{}`) was not recognised'.format(node_text(getattr(dupchk[0].parent, 'test', dupchk[0]), 60)))
+    rep._fallback = None
+    _pa_groups_separate_actions(cx, rep, port, p, mod)
+
+
+def _pa_groups_separate_actions(cx, rep, port, p, mod):
     # separate_actions: join subtypes collapse to JOIN
     sa = p.func(mod, 'separate_actions')
     t = node_text(sa, 6000)
@@ -425,6 +443,72 @@ def rule_pa_litorder(cx, rep, port):
         rep.decide(lm == '', 'literal ids', ssl, 'literal i is replaced by marker i and re-inserted from position i (extraction and re-insertion evaluated on six query texts)', lm)
     else:
         _literal_markers(rep, p, mod, ssl)
+
+
+def _locate_model(cx, port):
+    """locate_statements evaluated on eleven literal-free query texts: every clause keyword is found whatever its letter case, only as a
+    whole word followed by a blank, multi-word keywords with any number of blanks between the words, the longest keyword of a group
+    wins, the result is ordered by position, a keyword that occurs twice is a parsing error.
+    {obligation: problem or None} / None (outside the abstract interpreter); computed once per port"""
+    memo = '_locate_model_' + port
+    if hasattr(cx, memo):
+        return getattr(cx, memo)
+    import re as _re
+    from .. import absexec as AX
+    p = cx.port(port)
+    mod = cx.engine_mod(port)
+    groups = [['STRICT LEFT JOIN', 'LEFT OUTER JOIN', 'LEFT JOIN', 'INNER JOIN', 'JOIN'], ['SELECT'], ['ORDER BY'], ['WHERE'], ['UPDATE'], ['GROUP BY'], ['LIMIT'], ['EXCEPT']]
+
+    def oracle(text):
+        out = []
+        for g in groups:
+            for kw in g:
+                found = [m_ for m_ in _re.finditer('(?:^| )' + kw.replace(' ', ' *') + '(?= )', text, _re.IGNORECASE)]
+                if not found:
+                    continue
+                if len(found) > 1:
+                    return 'error'
+                out.append((found[0].start(), found[0].end(), kw))
+                break
+        return sorted(out)
+    cases = [('pattern', 'select a1 where a2 order by a3 desc'), ('pattern', 'SeLeCt a1 WHERE a2 Order By a3'), ('pattern', 'selection a1 reselect a2 whereas a3 select a4 where'),
+             ('multi', 'select a1 strict   left  join b on a1 == b1 group     by a2'), ('multi', 'select a1 left outer  join b on a1 == b1'),
+             ('first', 'select a1 inner join b on a1 == b1 where a2'), ('first', 'select a1 left join b on a1 == b1'), ('first', 'update a1 = 1 strict left join b on a1 == b1'),
+             ('order', 'where a1 select a2 limit 3'), ('dup', 'select a1 where a2 where a3'), ('dup', 'select a1 join b on a1 == b1 join c on a2 == c1')]
+    res = {'pattern': None, 'multi': None, 'first': None, 'order': None, 'dup': None}
+    try:
+        fd = p.func(mod, 'locate_statements')
+        n_params = len(fd.args.args)
+        for kind, text in cases:
+            def on_call(ex, node, fname, recv, args):
+                if isinstance(node.func, ast.Name) and node.func.id.endswith('Error'):
+                    return AX.Abs('Exc', cls=node.func.id)
+                if fname == 'assert':
+                    return None
+                return AX.NOT_HANDLED
+            ex = AX.Explorer(p, mod, on_call=on_call, max_choices=1)
+            runs, cut = ex.explore(fd, [[list(g) for g in groups], text] if n_params == 2 else [text])
+            if cut or len(runs) != 1:
+                raise Undecided('locate_statements does not complete for {!r}'.format(text), fd)
+            okind, val, _n = runs[0].outcome
+            want = oracle(text)
+            if okind == 'raise':
+                got = 'error' if isinstance(val, AX.Abs) and val.props.get('cls') == 'RbqlParsingError' else 'another error'
+            elif isinstance(val, list) and all(isinstance(x, (list, tuple)) and len(x) == 3 for x in val):
+                got = [tuple(x) for x in val]
+            else:
+                raise Undecided('locate_statements result {!r}'.format(val), fd)
+            if got != want and res[kind] is None:
+                def show(v):
+                    return v if isinstance(v, str) else [(k, a_, b_) for a_, b_, k in v]
+                res[kind] = 'for the query text `{}` the clause keywords located are {} instead of {}'.format(text, show(got), show(want))
+    except (Undecided, AX.Cut, AX._NeedChoice, KeyError, IndexError, TypeError, AttributeError, ValueError) as e_:
+        import os
+        if os.environ.get('RBQL_VERIF_DEBUG'):
+            print('locate_statements model gave up:', type(e_).__name__, str(e_)[:200])
+        res = None
+    setattr(cx, memo, res)
+    return res
 
 
 def _literals_model(cx, port):
